@@ -212,9 +212,38 @@ def centring_matrices(rep, M, T, rid):
     pret = [s for s in ast.walk(fn) if isinstance(s, ast.If) and isinstance(s.test, ast.Compare)
             and isinstance(s.test.comparators[0], ast.Constant) and s.test.comparators[0].value == "P"
             and any(isinstance(x, ast.Return) for x in s.body)]
+    def code_key(c):
+        """fold the statements between `centring = symbol[0]` and the matrix lookup for centring letter c"""
+        cur = c
+        started = False
+        for st in fn.body:
+            if isinstance(st, ast.Assign) and norm(st.targets[0]) == "centring" and isinstance(st.value, ast.Subscript):
+                started = True
+                continue
+            if not started:
+                continue
+            if isinstance(st, ast.Assign) and isinstance(st.value, ast.Subscript) and norm(st.value.value) == ptname:
+                return cur
+            if isinstance(st, ast.If) and {x.id for x in ast.walk(st.test) if isinstance(x, ast.Name)} <= {"centring"}:
+                from .constfold import Folder
+                F2 = Folder(what="_get_primitive_system centring dispatch")
+                blk = st.body if F2.ev(st.test, {"centring": cur}) else st.orelse
+                for s3 in blk:
+                    if isinstance(s3, ast.Return):
+                        return None
+                    if isinstance(s3, ast.Assign) and norm(s3.targets[0]) == "centring":
+                        cur = F2.ev(s3.value, {"centring": cur})
+            elif isinstance(st, ast.Assign) and norm(st.targets[0]) == "centring":
+                raise AnalysisError("_get_primitive_system: centring reassigned from a non-constant")
+        return cur
     for g in range(1, 231):
-        c = spgref.centring(g)
-        key = f"group {g} centring {c}"
+        c0 = spgref.centring(g)
+        c = code_key(c0)
+        key = f"group {g} centring {c0}"
+        if c is None:
+            c = "P"
+        elif c != c0:
+            key += f" (code maps it to {c!r})"
         tr = []
         for t in W[g]["translations"]:
             fr = [frac24(float(x)) for x in t]
@@ -316,32 +345,50 @@ def reset_covers_caches(rep, M, rid):
         raise AnalysisError("SymmetryAnalyzer.reset / set_system missing")
     lifecycle = {"__init__", "reset", "set_system"}
     assigned = {}
-    tested = set()
     for name, f in meth.items():
+        if name in lifecycle:
+            continue
         for n in ast.walk(f):
+            tgts = []
             if isinstance(n, (ast.Assign, ast.AugAssign)):
-                tg = n.targets if isinstance(n, ast.Assign) else [n.target]
-                for t in tg:
-                    for el in (t.elts if isinstance(t, (ast.Tuple, ast.List)) else [t]):
-                        if isinstance(el, ast.Attribute) and isinstance(el.value, ast.Name) and el.value.id == "self":
-                            if name not in lifecycle and not (isinstance(n, ast.Assign) and isinstance(n.value, ast.Constant) and n.value.value is None):
-                                assigned.setdefault(el.attr, name)
-            if isinstance(n, ast.Compare) and isinstance(n.left, ast.Attribute) and isinstance(n.left.value, ast.Name) \
-                    and n.left.value.id == "self" and isinstance(n.ops[0], (ast.Is, ast.IsNot)) \
-                    and isinstance(n.comparators[0], ast.Constant) and n.comparators[0].value is None:
-                tested.add(n.left.attr)
-            if isinstance(n, ast.If) and isinstance(n.test, ast.Attribute) and isinstance(n.test.value, ast.Name) and n.test.value.id == "self":
-                tested.add(n.test.attr)
-    reset_none = {t.attr for n in ast.walk(meth["reset"]) if isinstance(n, ast.Assign) and isinstance(n.value, ast.Constant) and n.value.value is None
-                  for t in n.targets if isinstance(t, ast.Attribute)}
-    memos = sorted(a for a in assigned if a in tested)
-    rep.count("memo_attributes", len(memos))
+                if isinstance(n, ast.Assign) and isinstance(n.value, ast.Constant) and n.value.value is None:
+                    continue
+                tgts = n.targets if isinstance(n, ast.Assign) else [n.target]
+            elif isinstance(n, ast.Call) and isinstance(n.func, ast.Attribute) and n.func.attr in ("update", "append", "setdefault", "add", "extend", "insert"):
+                tgts = [n.func.value]
+            for t in tgts:
+                for el in (t.elts if isinstance(t, (ast.Tuple, ast.List)) else [t]):
+                    base = el
+                    while isinstance(base, ast.Subscript):
+                        base = base.value
+                    if isinstance(base, ast.Attribute) and isinstance(base.value, ast.Name) and base.value.id == "self":
+                        assigned.setdefault(base.attr, name)
+    reset_set = {t.attr for n in ast.walk(meth["reset"]) if isinstance(n, ast.Assign) for t in n.targets if isinstance(t, ast.Attribute)
+                 and isinstance(t.value, ast.Name) and t.value.id == "self"}
+    memos = sorted(assigned)
+    rep.count("state_attributes_written_outside_lifecycle", len(memos))
     for a in memos:
-        if a in reset_none:
-            rep.ok(rid, f"memo self.{a} (filled in {assigned[a]}) is cleared by reset()")
+        if a in reset_set:
+            rep.ok(rid, f"state self.{a} (written in {assigned[a]}) is re-initialised by reset()")
         else:
-            rep.violation(rid, f"SymmetryAnalyzer memo self.{a}", f"filled in {assigned[a]} and reused when not None, but reset() does not clear it: "
+            rep.violation(rid, f"SymmetryAnalyzer memo self.{a}", f"written in {assigned[a]} and kept on the analyzer, but reset() does not re-initialise it: "
                           "after set_system(other) the analyzer answers for the previous structure", M.where(SA + "." + assigned[a]))
+    # memo-key completeness: a method with parameters must not return a memo that ignores them
+    for name, f in meth.items():
+        ps = [a.arg for a in f.args.args[1:] + f.args.kwonlyargs]
+        if not ps or name in lifecycle:
+            continue
+        for t in ast.walk(f):
+            if isinstance(t, ast.If) and any(isinstance(r, ast.Return) and isinstance(r.value, (ast.Attribute, ast.Subscript)) and "self." in ast.unparse(r.value)
+                                              for r in t.body):
+                names = {x.id for x in ast.walk(t.test) if isinstance(x, ast.Name)}
+                attr = [x for x in ast.walk(t.test) if isinstance(x, ast.Attribute) and isinstance(x.value, ast.Name) and x.value.id == "self"]
+                if attr and not (names & set(ps)):
+                    used = [p for p in ps if any(isinstance(x, ast.Name) and x.id == p for s2 in f.body for x in ast.walk(s2))]
+                    if used:
+                        rep.violation(rid, f"SymmetryAnalyzer.{name}: memo `{ast.unparse(t.test)[:50]}`", f"the cached result is returned regardless of the "
+                                      f"argument(s) {used}: a later call with another argument gets the first call's answer (e.g. sets without the "
+                                      "free parameters although they were requested)", M.where(SA + "." + name, t))
     for name, f in meth.items():
         for d in f.decorator_list:
             t = ast.unparse(d)
@@ -359,7 +406,7 @@ def reset_covers_caches(rep, M, rid):
     else:
         rep.violation(rid, "SymmetryAnalyzer.set_system", "does not call reset(): cached results of the previous structure survive", M.where(SA + ".set_system"))
     if len(memos) < 8:
-        raise AnalysisError(f"only {len(memos)} memo attributes recognised in SymmetryAnalyzer (>= 8 confirmed by hand)")
+        raise AnalysisError(f"only {len(memos)} state attributes recognised in SymmetryAnalyzer (>= 8 confirmed by hand)")
 
 
 # ----------------------------------------------------------------------------- letter-space typing
